@@ -146,8 +146,8 @@ theorem decCircle_total (data : Bytes) (h : 24 ≤ data.length) : Total (decCirc
   exact total_bind (slice_total _ _ _ (by omega) (by omega)) fun _ => total_bind (decodePoint_total _) fun _ =>
     total_bind (u64_total _ _ (by omega)) fun _ => total_pure _
 
-theorem pathPoints_total (data : Bytes) (n i : Nat) (h : 5 + (i + n) * 16 ≤ data.length) :
-    Total (pathPoints data n i) := by
+theorem pathPoints_total (data : Bytes) (first n i : Nat) (h : first + (i + n) * 16 ≤ data.length) :
+    Total (pathPoints data first n i) := by
   induction n generalizing i with
   | zero => exact total_pure _
   | succ n ih =>
@@ -155,19 +155,57 @@ theorem pathPoints_total (data : Bytes) (n i : Nat) (h : 5 + (i + n) * 16 ≤ da
     exact total_bind (slice_total _ _ _ (by omega) (by omega)) fun _ => total_bind (decodePoint_total _) fun _ =>
       total_bind (ih (i + 1) (by omega)) fun _ => total_pure _
 
+theorem pathOut_total (data : Bytes) (oid first npts : Nat) (closed : Bool) (h : first + npts * 16 ≤ data.length) :
+    Total (pathOut data oid first npts closed) := by
+  unfold pathOut
+  refine total_bind (pathPoints_total _ _ _ _ (by omega)) fun pts => ?_
+  split <;> exact total_pure _
+
+/-- the stored-layout attempt returns, and what it returns fits the data -/
+theorem storedLayout_total (data : Bytes) (oid : Nat) :
+    ∃ r, storedLayout data oid = .ok r ∧ ∀ n c, r = some (n, c) → storedFirst oid + n * 16 ≤ data.length := by
+  unfold storedLayout
+  have hf : 12 ≤ storedFirst oid := by unfold storedFirst; split <;> omega
+  by_cases h : data.length ≥ storedFirst oid
+  · simp only [h, if_true]
+    obtain ⟨n, hn⟩ := i32_total data 0 (by omega)
+    simp only [hn, ok_bind]
+    by_cases hg : n ≥ 0 ∧ (data.length : Int) = (storedFirst oid : Nat) + n * 16
+    · simp only [hg, and_self, if_true]
+      have hfit : storedFirst oid + n.toNat * 16 ≤ data.length := by omega
+      by_cases ho : (oid == OidPath) = true
+      · simp only [ho, if_true]
+        obtain ⟨c, hc⟩ := i32_total data 4 (by omega)
+        simp only [hc, ok_bind, pure_eq_ok]
+        exact ⟨_, rfl, fun n' c' he => by injection he with he; injection he with h1 h2; subst h1; exact hfit⟩
+      · simp only [ho, if_false, pure_eq_ok]
+        exact ⟨_, rfl, fun n' c' he => by injection he with he; injection he with h1 h2; subst h1; exact hfit⟩
+    · simp only [hg, if_false, pure_eq_ok]
+      exact ⟨none, rfl, fun _ _ he => by cases he⟩
+  · simp only [h, if_false, pure_eq_ok]
+    exact ⟨none, rfl, fun _ _ he => by cases he⟩
+
 theorem decodePathOrPolygon_total (data : Bytes) (oid : Nat) : Total (decodePathOrPolygon data oid) := by
   unfold decodePathOrPolygon
-  by_cases h : data.length < 5
-  · simp [h]; exact total_ok _
-  · simp only [h, if_false]
-    refine total_bind (idx_total _ _ (by omega)) fun c => total_bind (i32_total _ _ (by omega)) fun npts => ?_
-    by_cases hg : (npts < 0 || (data.length : Int) < 5 + npts * 16) = true
-    · simp only [hg, if_true]; exact total_pure _
-    · simp only [hg]
-      have h1 : ¬ npts < 0 := by intro hn; simp [hn] at hg
-      have h2 : ¬ (data.length : Int) < 5 + npts * 16 := by intro hn; simp [hn] at hg
-      refine total_bind (pathPoints_total _ _ _ (by omega)) fun pts => ?_
-      split <;> exact total_pure _
+  obtain ⟨r, hr, hfit⟩ := storedLayout_total data oid
+  rw [hr]
+  simp only [ok_bind]
+  cases r with
+  | some p =>
+    obtain ⟨n, c⟩ := p
+    exact pathOut_total _ _ _ _ _ (hfit n c rfl)
+  | none =>
+    simp only []
+    by_cases h : data.length < 5
+    · simp [h]; exact total_ok _
+    · simp only [h, if_false]
+      refine total_bind (idx_total _ _ (by omega)) fun c => total_bind (i32_total _ _ (by omega)) fun npts => ?_
+      by_cases hg : (npts < 0 || (data.length : Int) < 5 + npts * 16) = true
+      · simp only [hg, if_true]; exact total_pure _
+      · simp only [hg]
+        have h1 : ¬ npts < 0 := by intro hn; simp [hn] at hg
+        have h2 : ¬ (data.length : Int) < 5 + npts * 16 := by intro hn; simp [hn] at hg
+        exact pathOut_total _ _ _ _ _ (by omega)
 
 theorem decodeBitString_total (data : Bytes) : Total (decodeBitString data) := by
   unfold decodeBitString
@@ -375,6 +413,56 @@ theorem decodeRangeFixed_total (ext : Ext) (hext : ExtTotal ext) (data : Bytes) 
     refine total_bind hup fun upper => ?_
     cases upper <;> exact total_pure _
 
+/-- types.go:ReadVarlena (the model of area rows) returns on every input -/
+theorem readVarlena_total (data : Bytes) : Total (Model.readVarlena data) := by
+  unfold Model.readVarlena
+  by_cases h : data.length = 0
+  · simp [h]; exact total_ok _
+  · simp only [h, if_false]
+    refine total_bind (idx_total _ _ (by omega)) fun first => ?_
+    refine total_ite (fun _ => ?_) (fun _ => ?_)
+    · refine total_ite (fun _ => total_pure _) (fun hc => ?_)
+      exact total_bind (slice_total _ _ _ (by omega) (by omega)) fun _ => total_pure _
+    · refine total_ite (fun _ => ?_) (fun _ => ?_)
+      · refine total_ite (fun h18 => ?_) (fun _ => total_pure _)
+        refine total_bind (idx_total _ _ (by omega)) fun tag => ?_
+        split <;> exact total_pure _
+      · refine total_ite (fun _ => total_pure _) (fun h4 => ?_)
+        refine total_bind (uN_total _ _ _ (by omega)) fun header => ?_
+        refine total_ite (fun _ => total_pure _) (fun hc => ?_)
+        exact total_bind (slice_total _ _ _ (by omega) (by omega)) fun _ => total_pure _
+
+theorem numBound_total (ext : Ext) (hext : ExtTotal ext) (data : Bytes) (offset : Nat) :
+    Total (numBound ext data offset) := by
+  unfold numBound
+  have h1 : Total (if offset < data.length - 1 then do
+      if (← idx data offset) == 0 then pure (align (offset + 4) 4 - 4) else pure offset
+    else (pure offset : M Nat)) := by
+    refine total_ite (fun h => ?_) (fun _ => total_pure _)
+    refine total_bind (idx_total _ _ (by omega)) fun b => ?_
+    split <;> exact total_pure _
+  refine total_bind h1 fun off => ?_
+  refine total_ite (fun _ => total_pure _) (fun h => ?_)
+  refine total_bind (slice_total _ _ _ (by omega) (by omega)) fun s => ?_
+  refine total_bind (readVarlena_total s) fun r => ?_
+  split
+  · exact total_pure _
+  · refine total_bind (hext.num _) fun v => ?_
+    split <;> exact total_pure _
+
+theorem decodeNumericRange_total (ext : Ext) (hext : ExtTotal ext) (data : Bytes) (flags : Nat) :
+    Total (decodeNumericRange ext data flags) := by
+  unfold decodeNumericRange
+  have hl : Total (if (flags &&& 0x08 != 0) = true then (pure ([], 4) : M (List GoVal × Nat)) else numBound ext data 4) :=
+    total_iteB (fun _ => total_pure _) (fun _ => numBound_total ext hext _ _)
+  refine total_bind hl fun p => ?_
+  obtain ⟨lb, offset⟩ := p
+  have hu : Total (if (flags &&& 0x10 != 0) = true then (pure ([], offset) : M (List GoVal × Nat)) else numBound ext data offset) :=
+    total_iteB (fun _ => total_pure _) (fun _ => numBound_total ext hext _ _)
+  refine total_bind hu fun q => ?_
+  obtain ⟨ub, o2⟩ := q
+  exact total_pure _
+
 theorem decodeRange_total (ext : Ext) (hext : ExtTotal ext) (data : Bytes) (oid : Nat) :
     Total (decodeRange ext data oid) := by
   unfold decodeRange
@@ -383,10 +471,11 @@ theorem decodeRange_total (ext : Ext) (hext : ExtTotal ext) (data : Bytes) (oid 
   · simp only [h, if_false]
     refine total_bind (idx_total _ _ (by omega)) fun fl => ?_
     refine total_iteB (fun _ => total_pure _) (fun _ => ?_)
-    refine total_ite (fun _ => total_pure _) (fun _ => ?_)
-    split
-    · exact total_pure _
-    · exact decodeRangeFixed_total ext hext _ _ _ _
+    refine total_ite (fun _ => ?_) (fun _ => ?_)
+    · exact decodeNumericRange_total ext hext _ _
+    · split
+      · exact total_pure _
+      · exact decodeRangeFixed_total ext hext _ _ _ _
 
 theorem decodeScalar_total (ext : Ext) (hext : ExtTotal ext) (data : Bytes) (oid : Nat) :
     Total (decodeScalar ext data oid) := by
